@@ -26,10 +26,12 @@ mod store;
 #[path = "/repo/src/tlv.rs"]
 mod tlv;
 
+mod node;
 mod out;
 mod rng;
 mod suite_classify;
 mod suite_fee;
+mod suite_provider;
 mod suite_tlv;
 
 fn main() {
@@ -61,6 +63,7 @@ fn main() {
         "tlv" => suite_tlv::run(ctx),
         "fee" => suite_fee::run(ctx),
         "classify" => suite_classify::run(ctx),
+        "provider" => suite_provider::run(ctx),
         other => { eprintln!("unknown suite {}", other); std::process::exit(2); }
     }
 }
